@@ -120,6 +120,7 @@ class Env:
         self.pending = {"out": list(out), "err": list(err)}
         self.open = {"out": True, "err": True}
         self.fault = {"out": False, "err": False}
+        self.written = {"out": b"", "err": b""}
         self.exited = False
         self.rc = None
         self.hold_open = hold_open
@@ -142,6 +143,7 @@ class Env:
             s = "out" if tok == "wo" else "err"
             if self.pending[s] and self.open[s]:
                 self.buf[s].append(self.pending[s].pop(0))
+                self.written[s] += self.buf[s][-1]
         elif tok in ("co", "ce"):
             self.open["out" if tok == "co" else "err"] = False
         elif tok.startswith("x"):
@@ -394,6 +396,7 @@ def run_schedule(schedule, out=(), err=(), in_script=None, in_tty=False, pty=Fal
                 if a in expected and a not in sched.finished:
                     alive.append(a)
             obs["alive"] = alive
+            obs["written"] = (env.written["out"], env.written["err"])
             obs["timer_state"] = getattr(getattr(r, "_timer", None), "state", None)
         finally:
             sched.shutdown()
